@@ -158,7 +158,9 @@ def main():
     rpd = hvsrobj.Replayer(run, hvsrpy, gd, ALPHA8D, 1, 4, nf, constsd, focus={"Fdwra", "Init"})
     rpd.fdwra_hook = fdwra_hook
     # (rescaling all amplitudes - ascale 8 - must not change any decision: same graph, same expected outcomes)
-    for k_, inst in enumerate((hvsrobj.Instance(nf, "N", "L", q=2.0), hvsrobj.Instance(nf, "N", "N"), hvsrobj.Instance(nf, "N", "N", ascale=8.0), hvsrobj.Instance(nf, "L", "L", alias=True))):
+    # (... nor rescaling them to the size of ground velocities in m/s: 2^-30 ~ 1e-9 - every level stays an exact float)
+    for k_, inst in enumerate((hvsrobj.Instance(nf, "N", "L", q=2.0), hvsrobj.Instance(nf, "N", "N"), hvsrobj.Instance(nf, "N", "N", ascale=8.0), hvsrobj.Instance(nf, "L", "L", alias=True),
+                               hvsrobj.Instance(nf, "N", "N", ascale=2.0 ** -30))):
         rpd.replay(inst, trans_filter=share(k_ % 3, 3) if k_ < 3 else None)
     rpd.validate_pending()
     run.notes["fdwra_log_iterations_checked"] = logstat["iterations"]
